@@ -45,6 +45,28 @@ type NotRelPtr struct{ *ecs.Relation }
 type NotRelNone struct{ V uint64 }
 type relAlias = ecs.Relation
 
+// relLink embeds the marker itself (it IS a relation type); types that merely embed relLink are not.
+type relLink struct{ ecs.Relation }
+
+// NotRelPromoted embeds, as second field, a struct that embeds ecs.Relation (the marker is only promoted).
+type NotRelPromoted struct {
+	Length float64
+	relLink
+}
+
+// NotRelAfterEmpty embeds ecs.Relation after a zero-sized field (offset 0, but not the first field).
+type NotRelAfterEmpty struct {
+	Tag struct{}
+	ecs.Relation
+	V int32
+}
+
+// NotRelInnerFirst has as first field an embedded struct whose first field is ecs.Relation.
+type NotRelInnerFirst struct {
+	relLink
+	V int32
+}
+
 // NotRelNamed has a first field of another type that is merely called Relation.
 type NotRelNamed struct {
 	Relation uint32
@@ -73,6 +95,9 @@ var staticTypes = map[string]reflect.Type{
 	"N3": reflect.TypeOf(NotRelNone{}),
 	"N4": reflect.TypeOf(ecs.Relation{}),
 	"N5": reflect.TypeOf(NotRelNamed{}),
+	"N6": reflect.TypeOf(NotRelPromoted{}),
+	"N7": reflect.TypeOf(NotRelAfterEmpty{}),
+	"N8": reflect.TypeOf(NotRelInnerFirst{}),
 }
 
 var fillerElems = []reflect.Type{
